@@ -117,6 +117,12 @@ func genC12(seed uint64, run int, tier string) Scenario {
 				// the device ends the dialogue by going back to its command prompt
 				op.Complete = []string{`(?m)^` + regexp.QuoteMeta(strings.TrimRight(exec.Prompt, " ")) + `\s*$`}
 			}
+			if early < 0 && r.IntN(3) == 0 {
+				// completion patterns that this dialogue never shows
+				for i := between(r, 1, 2); i > 0; i-- {
+					op.Complete = append(op.Complete, fmt.Sprintf(`(?m)^never-shown-%d#\s*$`, r.IntN(1000)))
+				}
+			}
 			prev := exec
 			for e := 0; e < n; e++ {
 				hidden := e > 0 && r.IntN(3) == 0
@@ -137,10 +143,10 @@ func genC12(seed uint64, run int, tier string) Scenario {
 					rep.Out = append(long, rep.Out...)
 					op.Must = append(op.Must, head)
 				}
-				if e >= 2 && r.IntN(2) == 0 && len(op.Marks) >= 2 && op.Events[e-2].Response != "" {
+				if k := e - 1 - r.IntN(2); k >= 0 && r.IntN(2) == 0 && len(op.Marks) > k && op.Events[k].Response != "" {
 					// the device mentions an earlier question again, pauses, and only then shows
 					// what this event is waiting for
-					rep.Out = append([]peer.Tok{{S: "(re: " + op.Marks[e-2] + ")"}, {S: g.nl}}, rep.Out...)
+					rep.Out = append([]peer.Tok{{S: "(re: " + op.Marks[k] + ")"}, {S: g.nl}}, rep.Out...)
 					rep.Out = append(rep.Out, peer.Tok{S: g.nl, Delay: Micro(sc.ReadDelayUS * int64(between(r, 5, 40)))})
 				}
 				if last {
@@ -198,6 +204,14 @@ func genC12(seed uint64, run int, tier string) Scenario {
 	}
 	sc.Ops = append(sc.Ops, OpSpec{Kind: "close"})
 	sc.Class = sc.Driver + "/" + flavour
+	if flavour == "plain" && r.IntN(12) == 0 {
+		// one command whose echo is a long time coming (a third to four fifths of the operation
+		// timeout): the return must still wait for it
+		sc.Dev.SlowEchoAt = r.IntN(len(sc.Ops) - 1)
+		sc.Dev.SlowEchoUS = sc.TimeoutOpsUS * int64(between(r, 30, 80)) / 100
+		sc.Class += "/slow-echo"
+		sc.CutEnum = false
+	}
 	sc.CutEnum = pickCutEnum(run, 10)
 	if flavour == "dialogue" && r.IntN(5) == 0 {
 		// an earlier connection of the same process, to another device (same dialogues, other
@@ -213,7 +227,7 @@ func genC12(seed uint64, run int, tier string) Scenario {
 			}
 		}
 		prior.PromptPattern = `(?im)^` + regexp.QuoteMeta(pfx) + `[a-z\d.\-@()/:]{1,48}[#>$]\s*$`
-		prior.TimeoutOpsUS = sc.ReadDelayUS * 1500
+		prior.TimeoutOpsUS = sc.ReadDelayUS * 400
 		prior.CutEnum = false
 		for i := range sc.Ops {
 			if sc.Ops[i].Kind != "interactive" {
@@ -439,7 +453,7 @@ func init() {
 		Gen:    genC12,
 		New:    func() Scenario { return &Session{} },
 		Run:    runC12,
-		Expand: func(b Scenario, res *Result, tier string) []Scenario { return expandSessionCuts(b, res, tier, 150) },
+		Expand: func(b Scenario, res *Result, tier string) []Scenario { return expandSessionCuts(b, res, tier, 100) },
 		Shrink: shrinkSession,
 	})
 }
